@@ -5,7 +5,9 @@
 //! Streams (VERIF_STREAM):
 //!   c26_rotate — real `KeySetProvider::{new, rotate, get}` + `KeySet::{encode_cookie, decode_cookie}`:
 //!                histories 0-5, 0-40 rotations, both AEAD algorithms, a foreign provider, the id-offset
-//!                wrap (reached through a stored/loaded file), every byte position of a cookie mutated,
+//!                wrap (reached through a stored/loaded file), store -> load with a smaller/larger history ->
+//!                rotate (window clause against the history the provider was loaded with), every byte
+//!                position of a cookie mutated,
 //!                trailing bytes, truncations, raw byte strings
 //!   c27_file   — `KeySetProvider::{store, load}`: full round trip, every prefix, header words at boundary
 //!                values, byte flips in every header byte and in key bytes; every loaded set is then used
@@ -148,17 +150,20 @@ fn expect_valid(world: &World, p: u64, tag: u64) -> Option<bool> {
     }
     if let Some((g, rot_s, h_s)) = slot.origin {
         if c.gid == g && c.rot <= rot_s && c.std {
+            // cookie issued by the provider that stored the file this provider was loaded from
             let age_at_store = rot_s - c.rot;
             if age_at_store > h_s {
-                return Some(false);
+                return Some(false); // its key was already rotated out when the file was written
             }
             if slot.rot == 0 {
+                // gap between the reload and the first rotation: `load` restores exactly the stored key set
+                // (C27: cookies issued before the restart stay valid); the window of the NEW configuration is
+                // applied by rotations, so every key of the file still decodes here, whatever h' is
                 return Some(true);
             }
-            if h == h_s {
-                return Some(age_at_store + slot.rot <= h);
-            }
-            return None;
+            // from the first rotation after the reload on, only the newest h'+1 keys may decode, h' being the
+            // history the provider was LOADED with (smaller or larger than the storing provider's)
+            return Some(age_at_store + slot.rot <= h);
         }
     }
     if slot.root != 0 && c.root != 0 && slot.root != c.root {
@@ -512,9 +517,10 @@ fn cookie_len(op: &str) -> usize {
 
 fn gen_rotate_case(rng: &mut Rng, idx: u64, _run: &Run) -> Vec<String> {
     let mut ops = vec![];
-    let h = match idx % 8 {
+    let mut h = match idx % 8 {
         0 => 0,
         1 => 1,
+        2 => 2 + rng.below(4), // reload with a SMALLER history below
         _ => rng.below(6),
     };
     ops.push(format!("new p=0 h={}", h));
@@ -522,9 +528,51 @@ fn gen_rotate_case(rng: &mut Rng, idx: u64, _run: &Run) -> Vec<String> {
     if foreign {
         ops.push(format!("new p=1 h={}", rng.below(6)));
     }
-    // id-offset wrap: continue from a stored file whose offset word is just below 2^32
     let mut p = 0u64;
-    if rng.chance(1, 5) {
+    let mut tag = 0u64;
+    let mut tags: Vec<(u64, u64, usize)> = vec![]; // tag, rotation index at issue, cookie length
+    let reload = idx % 8 == 2 || idx % 8 == 3 || rng.chance(1, 6);
+    if reload {
+        // stale-key-count changed across a restart: store, load with a different history, rotate.
+        // One cookie per key, decoded in the gap (every stored key still valid) and after each of the next
+        // h'+2 rotations (only the newest h'+1 keys may decode).
+        let smaller = idx % 8 == 2 || (idx % 8 != 3 && h > 0 && rng.chance(1, 2));
+        let h2 = if smaller && h > 0 { rng.below(h) } else { h + 1 + rng.below(3) };
+        let k = match rng.below(3) {
+            0 => h,
+            1 => h + 1 + rng.below(2),
+            _ => rng.below(h + 3),
+        };
+        for _ in 0..k {
+            let e = gen_encode(rng, 0, tag);
+            tags.push((tag, 0, cookie_len(&e)));
+            ops.push(e);
+            tag += 1;
+            ops.push("rotate p=0".to_string());
+        }
+        let e = gen_encode(rng, 0, tag);
+        tags.push((tag, 0, cookie_len(&e)));
+        ops.push(e);
+        tag += 1;
+        ops.push("store p=0".to_string());
+        ops.push(format!("load p=2 h={}", h2));
+        for (t, _, _) in tags.iter() {
+            ops.push(format!("dec p=2 tag={}", t));
+        }
+        for _ in 0..(h2 + 2).min(8) {
+            let e = gen_encode(rng, 2, tag);
+            tags.push((tag, 0, cookie_len(&e)));
+            ops.push(e);
+            tag += 1;
+            ops.push("rotate p=2".to_string());
+            for (t, _, _) in tags.iter() {
+                ops.push(format!("dec p=2 tag={}", t));
+            }
+        }
+        p = 2;
+        h = h2;
+    } else if rng.chance(1, 5) {
+        // id-offset wrap: continue from a stored file whose offset word is just below 2^32
         for _ in 0..rng.below(h + 2) {
             ops.push("rotate p=0".to_string());
         }
@@ -538,8 +586,6 @@ fn gen_rotate_case(rng: &mut Rng, idx: u64, _run: &Run) -> Vec<String> {
         1 => h + rng.below(3),
         _ => rng.below(41),
     };
-    let mut tag = 0u64;
-    let mut tags: Vec<(u64, u64, usize)> = vec![]; // tag, rotation index at issue, cookie length
     let mut swept = false;
     for r in 0..=total_rot {
         // issue
@@ -770,7 +816,7 @@ fn entry() {
     match stream.as_str() {
         "c26_rotate" => common::drive(
             "c26_rotate",
-            "KeySetProvider new/rotate (history 0-5, 0-40 rotations, foreign provider, id-offset wrap via a loaded file), encode_cookie for both algorithms (+ ill-formed), decode at the window boundary, one full single-byte mutation sweep per case, trailing bytes, truncations, raw strings; non-trivial = at least one unmodified cookie decoded; distinct by op-kind string",
+            "KeySetProvider new/rotate (history 0-5, 0-40 rotations, foreign provider, id-offset wrap via a loaded file, store -> load with a SMALLER or LARGER history -> rotate with every key's cookie decoded in the gap and after each rotation), encode_cookie for both algorithms (+ ill-formed), decode at the window boundary, one full single-byte mutation sweep per case, trailing bytes, truncations, raw strings; non-trivial = at least one unmodified cookie decoded; distinct by op-kind string",
             gen_rotate_case,
             exec_case,
         ),
